@@ -12,10 +12,10 @@ func init() {
 	register(&propertyDef{
 		id:    "C09",
 		title: "the result does not depend on how fast goroutines are scheduled",
-		rules: []ruleFunc{c09R1, c09R2, c09R3},
+		rules: []ruleFunc{c09R1, c09R2, c09R3, c09R4},
 		decided: "the fallback detector is time-based (retries x delay), so schedule independence needs that it can never observe `waiting for input` for a step whose input was delivered. Decided as structural conditions on the writes of the step state: " +
 			"every hand-over of stage input flips state Waiting->Running in the same critical section (R1); every entry into `waiting_for_input` is made in the critical section that tests the matching input-available flag and depends on it (R2); " +
-			"the detector and the input hand-over read/write under the run lock (R3).",
+			"the detector and the input hand-over read/write under the run lock (R3); the detector reports only when no step is starting, none is running, no node is ready and no output was produced, and only after its retries are used up (R4).",
 		notDecided: "everything else about timing; whether a given window is long enough to matter on a real machine (each listed finding was confirmed by injecting one delay).",
 	})
 }
@@ -348,4 +348,99 @@ func (c *Ctx) statesAtReceive(provider, ch, stateField string) (map[string]bool,
 		}
 	}
 	return out, true
+}
+
+// C09.R4 the detector's condition.
+func c09R4(c *Ctx) {
+	const rule = "C09.R4"
+	c.explain("C09.R4 in checkForDeadlocks the ErrNoMorePossibleSteps report is dominated by the true edges of `starting == 0`, `running == 0`, the false edges of hasReadyNodes and outputDone, and the true edge of `retries <= 0`; the retry branch waits (timer) before re-checking with retries-1")
+	fn := c.Fn("(*workflow.loopState).checkForDeadlocks")
+	errT := c.namedType(pkgWorkflow, "ErrNoMorePossibleSteps")
+	if fn == nil || errT == nil {
+		return
+	}
+	var mk ssa.Instruction
+	eachInstr(fn, func(r instrRef) {
+		if a, ok := r.I.(*ssa.Alloc); ok {
+			if p, ok := a.Type().(*types.Pointer); ok && types.Identical(p.Elem(), errT) {
+				mk = a
+			}
+		}
+	})
+	if mk == nil {
+		c.bad(rule, "report", c.pos(fn.Pos()), "checkForDeadlocks no longer raises ErrNoMorePossibleSteps")
+		return
+	}
+	// counters fields compared with 0
+	cmpField := func(name string) func(ssa.Value) bool {
+		return func(cond ssa.Value) bool {
+			b, ok := cond.(*ssa.BinOp)
+			if !ok || b.Op.String() != "==" {
+				return false
+			}
+			n, isC := constInt(b.Y)
+			if !isC || n != 0 {
+				return false
+			}
+			f := firstFieldRead(b.X)
+			if f != nil && f.Name() == name {
+				return true
+			}
+			// field of a struct value (Field instruction)
+			if fi, ok := b.X.(*ssa.Field); ok {
+				if fv := fieldValVar(fi); fv != nil && fv.Name() == name {
+					return true
+				}
+			}
+			return false
+		}
+	}
+	doneF := c.fLoop("outputDone")
+	conds := []struct {
+		name string
+		ok   bool
+	}{
+		{"starting == 0", guardedBy(mk, true, cmpField("starting")) != nil},
+		{"running == 0", guardedBy(mk, true, cmpField("running")) != nil},
+		{"!hasReadyNodes", guardedBy(mk, false, func(cond ssa.Value) bool {
+			call, ok := cond.(*ssa.Call)
+			return ok && call.Common().IsInvoke() && call.Common().Method.Name() == "HasReadyNodes"
+		}) != nil},
+		{"!outputDone", guardedBy(mk, false, func(cond ssa.Value) bool { return loadedField(cond) == doneF }) != nil},
+		{"retries <= 0", guardedBy(mk, true, func(cond ssa.Value) bool {
+			b, ok := cond.(*ssa.BinOp)
+			if !ok || b.Op.String() != "<=" {
+				return false
+			}
+			isP := derivesFrom(b.X, func(v ssa.Value) bool { _, ok := v.(*ssa.Parameter); return ok })
+			n, isC := constInt(b.Y)
+			return isP && isC && n == 0
+		}) != nil},
+	}
+	for _, cd := range conds {
+		c.verdict(cd.ok, rule, "condition:"+strings.ReplaceAll(cd.name, " ", ""), c.instrPos(mk), "the report requires "+cd.name, "the no-more-steps report is not guarded by "+cd.name+": a step that is merely starting/running (or a run with ready nodes / a produced output) would be declared dead")
+	}
+	// the retry: a goroutine whose body waits on a timer and calls checkForDeadlocks(retries-1)
+	okRetry := false
+	for _, a := range fn.AnonFuncs {
+		hasTimer, recurses := false, false
+		eachInstr(a, func(r instrRef) {
+			if s, ok := r.I.(*ssa.Select); ok {
+				for _, st := range s.States {
+					if c.classifyChan(st.Chan).Class == chTimer {
+						hasTimer = true
+					}
+				}
+			}
+			if call, ok := r.I.(*ssa.Call); ok && call.Common().StaticCallee() == fn {
+				if b, ok := call.Call.Args[1].(*ssa.BinOp); ok && b.Op.String() == "-" {
+					recurses = true
+				}
+			}
+		})
+		if hasTimer && recurses {
+			okRetry = true
+		}
+	}
+	c.verdict(okRetry, rule, "retry-waits", c.pos(fn.Pos()), "the retry waits on a timer and re-checks with retries-1", "the detector does not give steps in a transition time (timer + retries-1) before reporting")
 }
